@@ -228,6 +228,7 @@ def run(kernel="iwls", family="gauss2", step=0.7, chains=2, seed=0, n_iter=40):
         evs = [e for e in logs[(c, 0)] if e["kind"] == "transition"]
         # RW: try to replay the Gaussian step from the documented key derivation (menu of two)
         replay = None
+        picked = None
         if kernel == "rw":
             for pick in (0, 1):
                 ok = True
@@ -242,6 +243,7 @@ def run(kernel="iwls", family="gauss2", step=0.7, chains=2, seed=0, n_iter=40):
                         break
                 if ok:
                     replay = zs
+                    picked = pick
                     break
         ev = []
         for i, e in enumerate(evs):
@@ -273,6 +275,21 @@ def run(kernel="iwls", family="gauss2", step=0.7, chains=2, seed=0, n_iter=40):
             if kernel == "mh":
                 rec["corr"] = fstr(float(np.sum(np.log(xp) - np.log(x))))
             ev.append(rec)
+        if picked is not None:
+            # which uniform explains the accept / reject decisions: the one of the sub-key the proposal did NOT use
+            # (the documented derivation), or the one of the sub-key that already drew the proposal
+            inner = other_ok = same_ok = 0
+            for e in evs:
+                a = float(e["acc"])
+                if not (0.0 < a < 1.0):
+                    continue
+                k0, k1 = (int(x) for x in e["key"].split(":"))
+                subs = jax.random.split(jnp.asarray([k0, k1], jnp.uint32))
+                u_same, u_other = float(jax.random.uniform(subs[picked])), float(jax.random.uniform(subs[1 - picked]))
+                inner += 1
+                other_ok += int(bool(e["moved"]) == (u_other < a))
+                same_ok += int(bool(e["moved"]) == (u_same < a))
+            ev.append({"ev": "rw_keys", "inner": inner, "explained_by_other_subkey": other_ok, "explained_by_proposal_subkey": same_ok})
         traces.append({"hdr": {"kernel": kernel, "family": family, "step": step, "chain": c, "d": d,
                                "rtol": "3e-3", "atol": "2e-5", "rw_replay_matched": replay is not None,
                                # the density is finite everywhere and every proposal is a finite point
